@@ -39,6 +39,20 @@ def c14_rebind_cases():
     return out
 
 
+def c05_pin_cases():
+    """the pin-form cases that fail on the tree: every kind whose configuration is hoisted to the start of setup()"""
+    out = []
+    for case in c05.gen_pin_forms("quick"):
+        _, kind, form, upos, passes = case["id"].split(":")
+        if form not in ("derived_var", "reassigned_var") or kind not in ("button", "buzzer", "lcd", "motor", "servo"):
+            continue
+        if kind == "button" and passes == "0":
+            continue
+        body = {k: v for k, v in case.items() if k != "id"}
+        out.append({"key": pipeline.case_key("C05", body), "summary": case["id"], "case": body})
+    return out
+
+
 def c05_case(*args):
     case = c05.build(*args)
     case = {k: v for k, v in case.items() if k != "id"}
@@ -244,6 +258,13 @@ FINDINGS = [
          what="a name bound to a second Led / RGBLed kept the first one's tracked state: led = Led(9); led.on(); led = Led(6); led.toggle() switched the new Led off", cases=[]),
     dict(id="KF-C04-rebound-motor-state", property="C04", status="fixed", commit="b8fbb9a",
          what="a name bound to a second DCMotor kept the first one's tracked speed / inversion / mode", cases=[]),
+    dict(id="KF-C09-nested-global-statement", property="C09", status="fixed", commit="61e4d67",
+         what="a helper defined above the sketch list it re-binds, with 'global L' written inside the if / loop that re-binds it, got a lifted local instead: the sketch list was never cleared and grew every pass", cases=[]),
+    dict(id="KF-C05-runtime-pin-variables", property="C05", status="open", commit=None,
+         what="a Buzzer / Button / Servo / DCMotor / LCD backlight whose pin is a sketch variable that only receives its value at run time (p = base + 8, or p = 0; p = 9) is configured at the very start of setup(), before the variable is assigned: pin 0 is configured, the real pin is used unconfigured (Led, RGBLed, Ultrasonic and constant-initialised pin variables are fine)",
+         cases=c05_pin_cases()),
+    dict(id="KF-C06-string-operands-and-stale-lift-type", property="C06", status="fixed", commit="367efd1",
+         what="\"a\" < name() < \"z\" (literals kept as const char * in the single-evaluation form), (\"a\" if c else \"b\") + \"c\" (sum of two C literals), and a name lifted out of an if in one scope leaving its type behind for the same name lifted out of a loop elsewhere did not compile", cases=[]),
     dict(id="KF-C14-lcd-rebind", property="C14", status="open", commit=None,
          what="one name bound first to a parallel LCD and later to an I2C LCD (or the reverse): both libraries are requested, but the emitter keeps only the first display (one header, one object); outside the documented style, like KF-C05-rebind",
          cases=c14_rebind_cases()),
